@@ -358,3 +358,301 @@ Qed.
 (** the statement of DESIGN.md (C19): all code books the library builds (__M4RI_MAXKAY = 16) *)
 Corollary codebook_ok_16 k : 1 <= k <= 16 -> codebook_ok k.
 Proof. intros _. apply codebook_ok_all. Qed.
+
+(** * 6. mzd_make_table from arbitrary stale state *)
+Lemma testbit_colmask c0 c1 j :
+  N.testbit (colmask c0 c1) (N.of_nat j) = (c0 <=? j) && (j <? c1).
+Proof.
+  unfold colmask. rewrite testbit_shiftl_nat, testbit_ones_nat.
+  destruct (Nat.leb_spec c0 j); cbn [andb]; [|reflexivity].
+  destruct (Nat.ltb_spec (j - c0) (c1 - c0)), (Nat.ltb_spec j c1); try reflexivity; lia.
+Qed.
+
+Lemma mul_row_pow2 b rs : mul_row (2 ^ N.of_nat b) rs = nth b rs 0%N.
+Proof.
+  apply bits_ext_nat. intros j. rewrite testbit_mul_row.
+  destruct (Nat.lt_ge_cases b (length rs)) as [Hb|Hb].
+  - rewrite (xsum_single _ _ b Hb).
+    + now rewrite testbit_pow2_nat, Nat.eqb_refl.
+    + intros k _ Hk. rewrite testbit_pow2_nat. destruct (Nat.eqb_spec b k); [lia|reflexivity].
+  - rewrite nth_overflow by assumption. rewrite N.bits_0. apply xsum_zero.
+    intros k Hk. rewrite testbit_pow2_nat. destruct (Nat.eqb_spec b k); [lia|reflexivity].
+Qed.
+
+Lemma nth_block_rows M r k b : b < k -> nth b (block_rows M r k) 0%N = row M (r + b).
+Proof. intros Hb. unfold block_rows, row. rewrite nth_firstn_lt by assumption. apply nth_skipn_add. Qed.
+
+Lemma block_rows_length M r k : r + k <= length (rows M) -> length (block_rows M r k) = k.
+Proof. intros H. unfold block_rows. rewrite firstn_length, skipn_length. lia. Qed.
+
+Lemma land_lxor_distr_r a b m : N.land (N.lxor a b) m = N.lxor (N.land a m) (N.land b m).
+Proof.
+  apply bits_ext_nat. intros j. rewrite N.lxor_spec, !N.land_spec, N.lxor_spec.
+  destruct (N.testbit a (N.of_nat j)), (N.testbit b (N.of_nat j)), (N.testbit m (N.of_nat j)); reflexivity.
+Qed.
+
+Section CodeBook.
+  Variables (k : nat) (ord : list N) (inc : list nat).
+  Hypothesis Hcb : cb_ok k (ord, inc).
+
+  Lemma cb_ord_lt i : i < 2 ^ k -> N.to_nat (nth i ord 0%N) < 2 ^ k.
+  Proof.
+    intros Hi. destruct Hcb as (Hlo & _ & Hperm & _).
+    assert (Hin : In (nth i ord 0%N) (map N.of_nat (seq 0 (2 ^ k)))).
+    { apply (Permutation_in _ Hperm). apply nth_In. lia. }
+    apply in_map_iff in Hin as [j [<- Hj]]. apply in_seq in Hj. lia.
+  Qed.
+
+  Lemma cb_ord_inj i j : i < 2 ^ k -> j < 2 ^ k -> nth i ord 0%N = nth j ord 0%N -> i = j.
+  Proof.
+    intros Hi Hj H. destruct Hcb as (Hlo & _ & Hperm & _).
+    assert (Hnd : NoDup ord).
+    { apply (Permutation_NoDup (Permutation_sym Hperm)).
+      apply NoDup_map_inj_in; [|apply seq_NoDup]. intros; lia. }
+    rewrite (NoDup_nth ord 0%N) in Hnd. apply Hnd; lia.
+  Qed.
+
+  Lemma cb_ord_surj x : (x < 2 ^ N.of_nat k)%N -> exists i, i < 2 ^ k /\ nth i ord 0%N = x.
+  Proof.
+    intros Hx. destruct Hcb as (Hlo & _ & Hperm & _).
+    assert (Hin : In x ord).
+    { apply (Permutation_in _ (Permutation_sym Hperm)). apply in_map_iff.
+      exists (N.to_nat x). split; [apply N2Nat.id|]. apply in_seq. rewrite <- of_nat_pow2 in Hx. lia. }
+    destruct (In_nth _ _ 0%N Hin) as [i [Hi Hn]]. exists i. split; [lia|assumption].
+  Qed.
+
+  Lemma cb_ord_0 : nth 0 ord 0%N = 0%N.
+  Proof. now destruct Hcb as (_ & _ & _ & H & _). Qed.
+
+  Lemma cb_step i : S i < 2 ^ k ->
+    nth i inc 0 < k /\ nth (S i) ord 0%N = N.lxor (nth i ord 0%N) (2 ^ N.of_nat (nth i inc 0)).
+  Proof. destruct Hcb as (_ & _ & _ & _ & H). apply H. Qed.
+
+  Section Table.
+    Variables (M : mat) (r : nat) (region msk : N) (T0 : list N) (L0 : list nat).
+    Hypothesis Hrows : r + k <= nr M.
+    Hypothesis HT0 : 2 ^ k <= length T0.
+    Hypothesis HL0 : 2 ^ k <= length L0.
+    Hypothesis Hzero : N.land (nth 0 T0 0%N) msk = 0%N.
+    Hypothesis Hincl : forall j, N.testbit msk (N.of_nat j) = true -> N.testbit region (N.of_nat j) = true.
+
+    Let block := block_rows M r k.
+    Definition mt_target (i : nat) : N :=
+      N.lor (N.ldiff (nth i T0 0%N) region) (N.land (mul_row (nth i ord 0%N) block) msk).
+
+    Lemma land_target_msk a y : N.land (N.lor (N.ldiff a region) (N.land y msk)) msk = N.land y msk.
+    Proof.
+      apply bits_ext_nat. intros j. rewrite !N.land_spec, N.lor_spec, N.ldiff_spec, N.land_spec.
+      pose proof (Hincl j). destruct (N.testbit msk (N.of_nat j)), (N.testbit region (N.of_nat j)),
+        (N.testbit a (N.of_nat j)), (N.testbit y (N.of_nat j)); cbn in *; try reflexivity;
+        try (discriminate (H eq_refl)); auto.
+    Qed.
+
+    Definition mt_inv (m : nat) (st : list N * list nat) : Prop :=
+      length (fst st) = length T0 /\ length (snd st) = length L0 /\
+      (forall j, 1 <= j <= m -> nth j (fst st) 0%N = mt_target j) /\
+      (forall j, j = 0 \/ m < j -> nth j (fst st) 0%N = nth j T0 0%N) /\
+      (forall j, j <= m -> nth (N.to_nat (nth j ord 0%N)) (snd st) 0 = j).
+
+    Lemma mt_clean m st j : mt_inv m st -> j <= m ->
+      N.land (nth j (fst st) 0%N) msk = N.land (mul_row (nth j ord 0%N) block) msk.
+    Proof.
+      intros (_ & _ & H1 & H2 & _) Hj. destruct j as [|j].
+      - rewrite H2 by now left. rewrite Hzero, cb_ord_0, mul_row_0. reflexivity.
+      - rewrite H1 by lia. apply land_target_msk.
+    Qed.
+
+    Lemma mt_inv_step m st : S m < 2 ^ k -> mt_inv m st ->
+      mt_inv (S m) (mt_step (ord, inc) M r region msk st (S m)).
+    Proof.
+      intros Hm Hinv. pose proof (mt_clean m st m Hinv (le_n m)) as Hclean.
+      destruct Hinv as (HlT & HlL & H1 & H2 & H3). destruct st as [T L]. cbn [fst snd] in *.
+      destruct (cb_step m Hm) as [Hinc Hord].
+      unfold mt_step. replace (S m - 1) with m by lia.
+      destruct (Nat.leb_spec (nr M) (r + nth m inc 0)) as [Hskip|_]; [lia|].
+      pose proof (cb_ord_lt (S m) Hm) as Hlt.
+      unfold mt_inv. cbn [fst snd]. rewrite !upd_length.
+      split; [assumption|]. split; [assumption|]. split; [|split].
+      - intros j Hj. destruct (Nat.eq_dec j (S m)) as [->|Hne].
+        + rewrite nth_upd_same by lia. rewrite (H2 (S m)) by (right; lia).
+          unfold mt_target. f_equal.
+          rewrite Hord, mul_row_lxor, mul_row_pow2. unfold block at 2. rewrite nth_block_rows by assumption.
+          rewrite !land_lxor_distr_r, Hclean. apply N.lxor_comm.
+        + rewrite nth_upd_other by lia. apply H1. lia.
+      - intros j Hj. rewrite nth_upd_other by lia. apply H2. lia.
+      - intros j Hj. destruct (Nat.eq_dec j (S m)) as [->|Hne].
+        + apply nth_upd_same. lia.
+        + rewrite nth_upd_other; [apply H3; lia|].
+          intros E. apply N2Nat.inj in E. apply cb_ord_inj in E; lia.
+    Qed.
+
+    Lemma mt_inv_fold m : m < 2 ^ k ->
+      mt_inv m (fold_left (mt_step (ord, inc) M r region msk) (seq 1 m) (T0, upd 0 0 L0)).
+    Proof.
+      induction m as [|m IH]; intros Hm.
+      - cbn [seq fold_left]. unfold mt_inv. cbn [fst snd]. rewrite upd_length.
+        split; [reflexivity|]. split; [reflexivity|]. split; [intros; lia|]. split; [reflexivity|].
+        intros j Hj. replace j with 0 by lia. rewrite cb_ord_0. change (N.to_nat 0) with 0. apply nth_upd_same.
+        pose proof (pow2_pos k). lia.
+      - rewrite seq_S, fold_left_app. cbn [fold_left]. replace (1 + m) with (S m) by lia.
+        apply mt_inv_step; [assumption|]. apply IH. lia.
+    Qed.
+  End Table.
+End CodeBook.
+
+Ltac Zify.zify_post_hook ::= Z.div_mod_to_equations.
+
+Lemma mt_mask_incl M c j :
+  N.testbit (mt_mask M c) (N.of_nat j) = true -> N.testbit (mt_region M c) (N.of_nat j) = true.
+Proof.
+  unfold mt_mask, mt_region, radix, mwidth. rewrite !testbit_colmask. lia.
+Qed.
+
+(** ** What mzd_make_table guarantees, for every previous content of T and L.
+    Only hypothesis on the stale state: row 0 of T is zero on the columns [c, ncols) (row 0 is
+    never written by the C code; the tables come from mzd_init, which zeroes them). *)
+Theorem make_table_spec cb k M r c T0 L0 :
+  cb_ok k cb -> r + k <= nr M -> 2 ^ k <= length T0 -> 2 ^ k <= length L0 ->
+  N.land (nth 0 T0 0%N) (mt_mask M c) = 0%N ->
+  let TL := make_table_cb cb M r c k T0 L0 in
+  length (fst TL) = length T0 /\ length (snd TL) = length L0 /\
+  (forall j, nth j (fst TL) 0%N =
+     if (1 <=? j) && (j <? 2 ^ k)
+     then N.lor (N.ldiff (nth j T0 0%N) (mt_region M c))
+                (N.land (mul_row (nth j (fst cb) 0%N) (block_rows M r k)) (mt_mask M c))
+     else nth j T0 0%N) /\
+  (forall j, j < 2 ^ k -> nth (N.to_nat (nth j (fst cb) 0%N)) (snd TL) 0 = j).
+Proof.
+  destruct cb as [ord inc]. intros Hcb Hr HT HL Hz TL. cbn [fst].
+  pose proof (pow2_pos k) as Hp.
+  pose proof (mt_inv_fold k ord inc Hcb M r (mt_region M c) (mt_mask M c) T0 L0 Hr HL Hz
+                          (mt_mask_incl M c) (2 ^ k - 1) ltac:(lia)) as Hinv.
+  fold (make_table_cb (ord, inc) M r c k T0 L0) in Hinv. fold TL in Hinv.
+  destruct Hinv as (H1 & H2 & H3 & H4 & H5).
+  split; [assumption|]. split; [assumption|]. split.
+  - intros j. destruct (Nat.leb_spec 1 j), (Nat.ltb_spec j (2 ^ k)); cbn [andb].
+    + apply H3. lia.
+    + apply H4. lia.
+    + apply H4. lia.
+    + apply H4. lia.
+  - intros j Hj. apply H5. lia.
+Qed.
+
+(** masked lookup: on the columns [c, ncols) the row found through L for bit pattern x is the
+    xor of exactly the rows r+b of M with bit b of x set.  Columns below 64*(c/64) keep their
+    stale contents, columns 64*(c/64) .. c-1 and the padding of the last word are zero in every
+    written row (see [make_table_spec]). *)
+Theorem gray_lookup_masked cb k M r c T0 L0 x :
+  cb_ok k cb -> r + k <= nr M -> 2 ^ k <= length T0 -> 2 ^ k <= length L0 ->
+  N.land (nth 0 T0 0%N) (mt_mask M c) = 0%N ->
+  (x < 2 ^ N.of_nat k)%N ->
+  N.land (tlookup (make_table_cb cb M r c k T0 L0) x) (mt_mask M c) =
+  N.land (mul_row x (block_rows M r k)) (mt_mask M c).
+Proof.
+  intros Hcb Hr HT HL Hz Hx.
+  destruct (make_table_spec cb k M r c T0 L0 Hcb Hr HT HL Hz) as (_ & _ & H3 & H5).
+  destruct cb as [ord inc]. cbn [fst] in *.
+  destruct (cb_ord_surj k ord inc Hcb x Hx) as [i [Hi Hix]].
+  unfold tlookup. rewrite <- Hix, H5 by assumption. rewrite H3.
+  destruct (Nat.leb_spec 1 i), (Nat.ltb_spec i (2 ^ k)); cbn [andb]; try lia.
+  - apply land_target_msk. apply mt_mask_incl.
+  - assert (i = 0) by lia. subst i. rewrite Hz. rewrite (cb_ord_0 k ord inc Hcb), mul_row_0. reflexivity.
+Qed.
+
+Lemma colmask_0 n : colmask 0 n = N.ones (N.of_nat n).
+Proof. unfold colmask. rewrite Nat.sub_0_r. apply N.shiftl_0_r. Qed.
+
+Lemma land_ones_bounded n a : bounded n a -> N.land a (N.ones (N.of_nat n)) = a.
+Proof.
+  intros H. apply bits_ext_nat. intros j. rewrite N.land_spec, testbit_ones_nat.
+  destruct (Nat.ltb_spec j n); [apply andb_true_r|]. rewrite H by assumption. reflexivity.
+Qed.
+
+Lemma ldiff_ones_bounded n a : bounded n a -> N.ldiff a (N.ones (N.of_nat n)) = 0%N.
+Proof.
+  intros H. apply bits_ext_nat. intros j. rewrite N.ldiff_spec, testbit_ones_nat, N.bits_0.
+  destruct (Nat.ltb_spec j n); [apply andb_false_r|]. rewrite H by assumption. reflexivity.
+Qed.
+
+Lemma In_firstn' {A} n (l : list A) x : In x (firstn n l) -> In x l.
+Proof. intros H. rewrite <- (firstn_skipn n l). apply in_or_app. now left. Qed.
+Lemma In_skipn' {A} n (l : list A) x : In x (skipn n l) -> In x l.
+Proof. intros H. rewrite <- (firstn_skipn n l). apply in_or_app. now right. Qed.
+
+Lemma block_rows_bounded M r k : wf M -> Forall (bounded (nc M)) (block_rows M r k).
+Proof.
+  intros [_ Hb]. unfold block_rows. rewrite Forall_forall in *. intros x Hx.
+  apply Hb. eapply In_skipn', In_firstn', Hx.
+Qed.
+
+(** ** gray_lookup (the form used by M4RM: c = 0, so whole rows are rebuilt).
+    For ALL stale tables T0 and index buffers L0 (of at least 2^k entries; T0's rows as wide as
+    M's rows, i.e. no bits beyond the 64*width columns that physically exist; row 0 zero), the
+    table row looked up for x is exactly the xor of the rows of the block selected by x. *)
+Theorem gray_lookup_cb cb k M r T0 L0 x :
+  cb_ok k cb -> wf M -> r + k <= nr M -> 2 ^ k <= length T0 -> 2 ^ k <= length L0 ->
+  nth 0 T0 0%N = 0%N -> Forall (bounded (radix * mwidth (nc M))) T0 ->
+  (x < 2 ^ N.of_nat k)%N ->
+  tlookup (make_table_cb cb M r 0 k T0 L0) x = mul_row x (block_rows M r k).
+Proof.
+  intros Hcb Hwf Hr HT HL Hz Hb Hx.
+  assert (Hz' : N.land (nth 0 T0 0%N) (mt_mask M 0) = 0%N) by (rewrite Hz; reflexivity).
+  destruct (make_table_spec cb k M r 0 T0 L0 Hcb Hr HT HL Hz') as (_ & _ & H3 & H5).
+  destruct cb as [ord inc]. cbn [fst] in *.
+  destruct (cb_ord_surj k ord inc Hcb x Hx) as [i [Hi Hix]].
+  unfold tlookup. rewrite <- Hix, H5 by assumption. rewrite H3.
+  destruct (Nat.leb_spec 1 i), (Nat.ltb_spec i (2 ^ k)); cbn [andb]; try lia.
+  - unfold mt_region, mt_mask. change (0 / radix) with 0. rewrite Nat.mul_0_r, !colmask_0.
+    rewrite ldiff_ones_bounded.
+    + rewrite N.lor_0_l. apply land_ones_bounded. apply bounded_mul_row. now apply block_rows_bounded.
+    + rewrite Forall_forall in Hb. apply Hb, nth_In. lia.
+  - assert (i = 0) by lia. subst i. rewrite Hz. rewrite (cb_ord_0 k ord inc Hcb), mul_row_0. reflexivity.
+Qed.
+
+(** with the library's own code book: no hypothesis on the code book is left *)
+Theorem gray_lookup k M r T0 L0 x :
+  wf M -> r + k <= nr M -> 2 ^ k <= length T0 -> 2 ^ k <= length L0 ->
+  nth 0 T0 0%N = 0%N -> Forall (bounded (radix * mwidth (nc M))) T0 ->
+  (x < 2 ^ N.of_nat k)%N ->
+  tlookup (make_table M r 0 k T0 L0) x = mul_row x (block_rows M r k).
+Proof. intros. apply gray_lookup_cb; auto. apply codebook_ok_all. Qed.
+
+Theorem gray_lookup_masked_lib k M r c T0 L0 x :
+  r + k <= nr M -> 2 ^ k <= length T0 -> 2 ^ k <= length L0 ->
+  N.land (nth 0 T0 0%N) (mt_mask M c) = 0%N ->
+  (x < 2 ^ N.of_nat k)%N ->
+  N.land (tlookup (make_table M r c k T0 L0) x) (mt_mask M c) =
+  N.land (mul_row x (block_rows M r k)) (mt_mask M c).
+Proof. intros. apply gray_lookup_masked; auto. apply codebook_ok_all. Qed.
+
+(** what the table state looks like afterwards (needed to iterate: tables are reused) *)
+Theorem make_table_preserves cb k M r T0 L0 w :
+  cb_ok k cb -> wf M -> r + k <= nr M -> 2 ^ k <= length T0 -> 2 ^ k <= length L0 ->
+  nth 0 T0 0%N = 0%N -> nc M <= w -> Forall (bounded w) T0 ->
+  let TL := make_table_cb cb M r 0 k T0 L0 in
+  length (fst TL) = length T0 /\ length (snd TL) = length L0 /  nth 0 (fst TL) 0%N = 0%N /\ Forall (bounded w) (fst TL).
+Proof.
+  intros Hcb Hwf Hr HT HL Hz Hw Hb TL.
+  assert (Hz' : N.land (nth 0 T0 0%N) (mt_mask M 0) = 0%N) by (rewrite Hz; reflexivity).
+  destruct (make_table_spec cb k M r 0 T0 L0 Hcb Hr HT HL Hz') as (H1 & H2 & H3 & _).
+  fold TL in H1, H2, H3. split; [assumption|]. split; [assumption|]. split.
+  - rewrite H3. destruct (Nat.leb_spec 1 0); [lia|]. exact Hz.
+  - apply Forall_forall. intros t Ht. destruct (In_nth _ _ 0%N Ht) as [j [Hj <-]].
+    rewrite Forall_forall in Hb. rewrite H3.
+    assert (Hbj : bounded w (nth j T0 0%N)) by (apply Hb, nth_In; lia).
+    destruct ((1 <=? j) && (j <? 2 ^ k)); [|assumption].
+    apply bounded_lor.
+    + intros b Hb'. rewrite N.ldiff_spec, Hbj by assumption. reflexivity.
+    + apply bounded_land_r. unfold mt_mask. rewrite colmask_0.
+      apply (bounded_mono (nc M)); [assumption|apply bounded_ones].
+Qed.
+
+(** non-vacuity: garbage tables/index buffers satisfying the hypotheses exist, and the lookup
+    can be evaluated *)
+Example gray_lookup_example :
+  let M := mk 4 70 [0x2000000000000000F1; 0x3; 0x100000000000000005; 0x3F00000000000000AA]%N in
+  let T0 := [0; 0x12345; 0xFFFFFFFFFFFFFFFFFFFFFFFFFFFFFFFF; 7; 0x5555; 1; 2; 3]%N in
+  let L0 := [5; 5; 9; 100; 0; 3; 3; 3] in
+  map (tlookup (make_table M 1 0 3 T0 L0)) [0; 1; 2; 3; 4; 5; 6; 7]%N =
+  map (fun x => mul_row x (block_rows M 1 3)) [0; 1; 2; 3; 4; 5; 6; 7]%N.
+Proof. vm_compute. reflexivity. Qed.
